@@ -71,6 +71,8 @@ static struct {
 	int spawn_fail;		/* errno for the job spawn, 0 = none */
 	int mail_fail;		/* errno for the sendmail spawn */
 	double mail_delay;	/* virtual seconds a (synchronous) delivery takes */
+	double linger;		/* a silent grandchild keeps the job's descriptors
+				 * open this long after the job itself exited */
 	int open_fail_out;	/* OFILE cannot be opened */
 	uid_t uids[16];
 	gid_t gids[16];
@@ -97,6 +99,8 @@ static struct {
 	int reaped;
 	double t_exit;
 	int killed_by;
+	int linger;		/* descriptors outlive the process */
+	double linger_until;
 } A;
 
 /* sendmail recorder */
@@ -694,6 +698,17 @@ pat(char *buf, size_t n, long off, int which)
 }
 
 static void
+actor_closefds(void)
+{
+	for (int i = 0; i < 3; i++) {
+		if (A.fd[i] >= 0) {
+			__real_close(A.fd[i]);
+			A.fd[i] = -1;
+		}
+	}
+}
+
+static void
 actor_exit(int status, int sig)
 {
 	A.exited = 1;
@@ -701,11 +716,15 @@ actor_exit(int status, int sig)
 	A.killed_by = sig;
 	A.t_exit = vt;
 	A.exit_iter = (int)evm_iter();
-	for (int i = 0; i < 3; i++) {
-		if (A.fd[i] >= 0) {
-			__real_close(A.fd[i]);
-			A.fd[i] = -1;
-		}
+	if (X.linger > 0.) {
+		/* a grandchild that writes nothing holds them open */
+		A.linger = 1;
+		A.linger_until = vt + X.linger;
+		h_begin("linger", vt);
+		h_dbl("until", A.linger_until);
+		h_end();
+	} else {
+		actor_closefds();
 	}
 	h_begin("jobexit", vt);
 	h_int("status", A.status);
@@ -722,6 +741,14 @@ actor_run(int maxsteps)
 	static char buf[65536];
 	int progress = 0;
 
+	if (A.alive && A.exited && A.linger && vt >= A.linger_until) {
+		/* the grandchild is gone too: end of file at last */
+		A.linger = 0;
+		actor_closefds();
+		h_begin("lingerend", vt);
+		h_end();
+		return 1;
+	}
 	while (A.alive && !A.exited && maxsteps-- > 0) {
 		struct step_s *s;
 
@@ -824,6 +851,16 @@ host_next_wake(double now, double due, int ioready)
 			t = alarm_at > vt ? alarm_at : vt;
 		}
 		vt = t;
+	} else if (!ioready && A.alive && A.exited && A.reaped && A.linger) {
+		/* an executor waiting for end of file gets it when the
+		 * grandchild goes, or its alarm first */
+		double t = A.linger_until;
+		if (alarm_at >= 0. && alarm_at < t) {
+			t = alarm_at > vt ? alarm_at : vt;
+		}
+		if (t > vt) {
+			vt = t;
+		}
 	} else if (!ioready && A.alive && A.exited && A.reaped) {
 		/* nothing left to wait for */
 		;
@@ -978,6 +1015,8 @@ load(const char *fn)
 			X.prep_stall = atof(tok[1]);
 		} else if (!strcmp(tok[0], "maildelay")) {
 			X.mail_delay = atof(tok[1]);
+		} else if (!strcmp(tok[0], "linger")) {
+			X.linger = atof(tok[1]);
 		} else if (!strcmp(tok[0], "mailfail")) {
 			X.mail_fail = errno_of(tok[1]);
 		} else if (!strcmp(tok[0], "openfail")) {
